@@ -919,7 +919,15 @@ func c27Run(rt *rapid.T, rec *vstat.Rec, env *c27Env, c c27Case) {
 		msg := c27Replay(before, after, groups, filter, c.IDsOnly, cols)
 		sig := ""
 		if msg != "" {
-			sig = c27Classify(req, failed)
+			sig = "C27/replay-mismatch"
+			// only surplus events (describing changes that are not in the
+			// database) can be phantoms of rolled-back work
+			for _, k := range []string{"already exists", "does not exist", "the database does not", "before-image differs", ": events give ", "onto an existing row id"} {
+				if strings.Contains(msg, k) {
+					sig = c27Classify(req, failed)
+					break
+				}
+			}
 		} else if m := c27CheckJSON(groups, c.IDsOnly); m != "" {
 			msg, sig = m, "C27/json-envelope-mismatch"
 		}
